@@ -46,7 +46,7 @@ type simPeer struct {
 	muteCF    atomic.Bool  // silent for getcfilters
 	delayMs   atomic.Int64 // extra delay before answering getdata / getcfilters
 	txGetData atomic.Bool  // answer inv(tx) with getdata (and accept the tx silently)
-	hdrBatch  int
+	hdrBatch  atomic.Int64
 	e         *env
 }
 
@@ -152,6 +152,10 @@ type env struct {
 	res   *l2.Result
 	w     *l2.World
 	tip   *chaingen.Node // honest best tip (moves on extension / reorg)
+	ext   []*chaingen.Node // pre-generated extension of the trunk
+	// pre-generated heavier branch forking branchDepth below the trunk tip
+	branch      []*chaingen.Node
+	branchDepth int32
 	peers []*simPeer
 	hook  *pointHook
 	trig  *trigger
@@ -187,9 +191,9 @@ func (sp *simPeer) mutate(_ *netsim.Peer, req wire.Message, honest []wire.Messag
 	case *wire.MsgGetHeaders:
 		if len(honest) == 1 {
 			if h, ok := honest[0].(*wire.MsgHeaders); ok && len(h.Headers) > 0 {
-				if len(h.Headers) > sp.hdrBatch {
+				if hb := int(sp.hdrBatch.Load()); len(h.Headers) > hb {
 					t := wire.NewMsgHeaders()
-					for _, x := range h.Headers[:sp.hdrBatch] {
+					for _, x := range h.Headers[:hb] {
 						_ = t.AddBlockHeader(x)
 					}
 					honest = []wire.Message{t}
@@ -243,7 +247,8 @@ func (sp *simPeer) onMsg(_ *netsim.Peer, m wire.Message) bool {
 func (e *env) addPeers() {
 	for _, kind := range e.p.Peers {
 		np := e.w.AddPeer(e.tip)
-		sp := &simPeer{Peer: np, kind: kind, hdrBatch: e.p.HdrBatch, e: e}
+		sp := &simPeer{Peer: np, kind: kind, e: e}
+		sp.hdrBatch.Store(int64(e.p.HdrBatch))
 		np.Mutate = sp.mutate
 		np.OnMsg = sp.onMsg
 		switch kind {
@@ -319,8 +324,7 @@ func (e *env) allHonest() {
 		sp.muteCF.Store(false)
 		sp.muteData.Store(false)
 		sp.delayMs.Store(0)
-		sp.Delay = 0
-		sp.hdrBatch = 2000
+		sp.hdrBatch.Store(2000)
 		sp.View.SetTip(e.tip)
 		e.w.Net.Refuse(sp.Addr, false)
 		sp.Disconnect()
@@ -450,9 +454,10 @@ func checkBlock(b *btcutil.Block, err error, want chainhash.Hash) string {
 // loopGetBlock keeps fetching random blocks until a call fails.
 func (e *env) loopGetBlock() {
 	rng := newRng(e.p.Seed + int64(len(e.calls)))
+	tip := e.tip
 	e.launch(CBlockLoop, "random heights until an error", func() (error, string) {
 		for i := 0; ; i++ {
-			n := e.block(1 + int32(rng.Intn(int(e.tip.Height))))
+			n := tip.Ancestor(1 + int32(rng.Intn(int(tip.Height))))
 			b, err := e.w.Svc.GetBlock(n.Hash)
 			if w := checkBlock(b, err, n.Hash); w != "" {
 				return err, w
@@ -466,9 +471,10 @@ func (e *env) loopGetBlock() {
 
 func (e *env) loopGetCFilter() {
 	rng := newRng(e.p.Seed + 77)
+	tip := e.tip
 	e.launch(CCFLoop, "random heights until an error", func() (error, string) {
 		for i := 0; ; i++ {
-			n := e.block(1 + int32(rng.Intn(int(e.tip.Height))))
+			n := tip.Ancestor(1 + int32(rng.Intn(int(tip.Height))))
 			f, err := e.w.Svc.GetCFilter(n.Hash, wire.GCSFilterRegular)
 			if err == nil && f == nil {
 				return err, "GetCFilter returned a nil filter and a nil error"
@@ -836,6 +842,22 @@ func Run(p Plan, res *l2.Result) {
 	w.Net.ConnCap = p.ConnCap
 	trunk := w.G.Extend(w.G.Genesis, p.ChainLen, chaingen.PaceNormal)
 	e.tip = trunk[len(trunk)-1]
+	// Everything the scenario will ever serve is generated BEFORE the client
+	// starts: the generator's maps are not safe for extension while peers
+	// answer requests from them.
+	e.ext = w.G.Extend(e.tip, 2, 0)
+	if p.ReorgDepth > 0 {
+		d := int32(p.ReorgDepth)
+		if d >= e.tip.Height {
+			d = e.tip.Height - 1
+		}
+		f := e.tip.Ancestor(e.tip.Height - d)
+		br := w.G.Extend(f, int(d)+1, 0)
+		for i := 0; i < 6 && br[len(br)-1].CumWork.Cmp(e.tip.CumWork) <= 0; i++ {
+			br = append(br, w.G.Extend(br[len(br)-1], 1, 0)...)
+		}
+		e.branch, e.branchDepth = br, d
+	}
 	e.addPeers()
 	neutrino.VerifSetPointHook(e.hook.fn)
 	defer neutrino.VerifSetPointHook(nil)
@@ -1125,15 +1147,7 @@ func (e *env) setupPostSync() (reached, parked bool) {
 			e.mute(p.MuteAtStop)
 			e.startInflight(false)
 		}
-		d := int32(p.ReorgDepth)
-		if d >= e.tip.Height {
-			d = e.tip.Height - 1
-		}
-		f := e.tip.Ancestor(e.tip.Height - d)
-		br := w.G.Extend(f, int(d)+1, 0)
-		for i := 0; i < 6 && br[len(br)-1].CumWork.Cmp(e.tip.CumWork) <= 0; i++ {
-			br = append(br, w.G.Extend(br[len(br)-1], 1, 0)...)
-		}
+		br, d := e.branch, e.branchDepth
 		e.hook.arm(p.Point(), p.KTh)
 		e.setTip(br[len(br)-1])
 		// One unsolicited headers message carrying the whole branch: its
@@ -1241,7 +1255,7 @@ func (e *env) setupPostSync() (reached, parked bool) {
 			sp.txGetData.Store(false)
 		}
 		base := e.txInvSeen.Load()
-		nb := w.G.Extend(e.tip, 1, 0)
+		nb := e.ext[:1]
 		e.setTip(nb[0])
 		e.announce(p.Announce, nb...)
 		ok := l2.WaitFor(10*time.Second, func() bool { return e.txInvSeen.Load() > base })
@@ -1256,7 +1270,7 @@ func (e *env) setupPostSync() (reached, parked bool) {
 		e.startInflight(false)
 		// A few notifications in flight as well.
 		time.Sleep(100 * time.Millisecond)
-		nb := w.G.Extend(e.tip, 1+e.w.Rng.Intn(2), 0)
+		nb := e.ext[:1+e.w.Rng.Intn(2)]
 		e.setTip(nb[len(nb)-1])
 		e.announce("headers", nb...)
 		time.Sleep(time.Duration(e.w.Rng.Intn(300)) * time.Millisecond)
@@ -1285,7 +1299,7 @@ func (e *env) setupPostSync() (reached, parked bool) {
 		}
 		e.mute("filters")
 		base := e.rx("getcfilters")
-		nb := w.G.Extend(e.tip, 1+e.w.Rng.Intn(2), 0)
+		nb := e.ext[:1+e.w.Rng.Intn(2)]
 		e.setTip(nb[len(nb)-1])
 		e.announce("headers", nb...)
 		ok := waitRx("getcfilters", base, 10*time.Second)
